@@ -1869,13 +1869,17 @@ class Engine(Executor):
         # requires
         states = [st]
         try:
-            for r in c.requires:
+            for r in list(c.requires) + list(c.opts.get("assumed_pre", [])):
                 nxt = []
                 for s0 in states:
                     for (s2, b) in self.eval_clause(r, s0, s0.env, fi.node):
                         s2.assume(b)
                         nxt.append(s2)
                 states = nxt
+            for r in c.opts.get("assumed_pre", []):
+                # a fact about the CALL HISTORY that no caller's contract in reach can establish (no K5 at call sites):
+                # assumed when the body is verified, listed, and validated by the bounded harness
+                self.assumptions.add("assumed of every call of %s (caller history, not checked at call sites): %s" % (fi.name, r))
         except Unsupported as u:
             self.unsupported.append((fi.qualname, 0, "requires: " + u.reason))
             states = []
